@@ -335,6 +335,37 @@ CHECKS['C10'] = {
     ],
 }
 
+RH_NOTE = ('Trusted: the in-process single-stepped harness (real ReflectServer, sessions, gateways and socket pairs; a StorageReflectSession subclass that only overrides GenerateHostName and exposes read-only accessors), the in-process walk of the server\'s tree as the truth about the server, '
+           'StringMatcher clause matching (C15) and QueryFilter::Matches (C14) for computing what a subscription selects.')
+
+CHECKS['C04'] = {
+    'level': 'exploration',
+    'technique': 'model-based property testing over generated command histories on the real server run in-process and single-stepped: every client applies its update stream; at every quiescent point its mirror is compared with what its subscriptions select in the server\'s tree; don\'t-care marking for documented notification suppression',
+    'level_text': ('Generated-history search: 3-4 sessions on two hosts issue SETDATA (nested paths, flags), REMOVEDATA (literal/wildcard/filtered/quiet), SETPARAMETERS with one or several SUBSCRIBE: entries (absolute, relative, host- or session-literal, with four filter kinds, quiet, max-items), filter changes, REMOVEPARAMETERS (literal and wildcard), nested BATCHes, GETDATA, ordered inserts/reorders, clean disconnects, cuts inside pending output and reconnects; several commands may be written before the server is stepped. '
+                   'At every quiescent point, for every client: no selected node of another session missing, none stale, none extra. Held = equal on every quiescent point of every generated history.'),
+    'level_note': RH_NOTE + ' Quiet sets/removes and SUBSCRIBE_QUIETLY make the touched nodes don\'t-care (by design no notification). While known finding F16 stands, (subscriber,node) pairs selected by two subscriptions of one session are don\'t-care after a filter change on one of them (counted). Own-session nodes are not compared.',
+    'rule': ('Byte-decoded histories of <= 50 steps. Non-trivial: at least one mirror node compared and the history contains a set-then-remove inside one BATCH, or a filter change on an existing subscription, or a session departure while another session is subscribed. Distinct: hash of the decoded step bytes.'),
+    'assumptions': ['PR_NAME_DISABLE_SUBSCRIPTIONS is not generated here (documented stop-telling-me switch; exercised under C07)'],
+    'targets': [
+        {'name': 'c04_mirror', 'src': ['harness/C04_mirror.cpp'], 'quick_n': 60000, 'thorough_n': 1500000, 'maxlen': 500, 'min_nontrivial': 3000, 'budget': 120,
+         'class_floors': {'case_set_then_remove_in_one_batch': 200, 'case_filter_change_on_existing_subscription': 500, 'case_departure_while_others_subscribed': 2000}},
+    ],
+}
+
+CHECKS['C13'] = {
+    'level': 'exploration',
+    'technique': 'model-based property testing over generated command histories on the real server run in-process: every client replays PR_RESULT_INDEXUPDATED entries (clear / insert-at / remove-at) in arrival order starting from the snapshot; at every quiescent point the replayed index is compared with the server\'s index; standing invariants on the server\'s indices',
+    'level_text': ('Same harness as C04 with an index-heavy operation mix (INSERTORDEREDDATA before a sibling / at the end / several at once, SETDATA with ADDTOINDEX, REORDERDATA before a sibling / to the end / out of the index / by wildcard, removals of indexed and plain children, subscribers joining mid-history, GETDATA snapshots). '
+                   'Oracle: each armed replay equals the server\'s index at quiescence; an insert position never exceeds the replayed size; a remove entry names what the replay has at that position; the server\'s index lists only existing children, each once. Held = on every quiescent point of every generated history.'),
+    'level_note': RH_NOTE + ' A replay is armed for a (client,node) pair only once the client has applied a clear entry for that node (the property speaks of a client that starts from the snapshot); entries for unarmed pairs are ignored, not judged. Subtree clone/restore is not generated.',
+    'rule': ('Byte-decoded histories of <= 50 steps. Non-trivial: at least one armed index replay was compared and the history contains a reorder or an indexed removal. Distinct: hash of the decoded step bytes.'),
+    'assumptions': [],
+    'targets': [
+        {'name': 'c13_index', 'src': ['harness/C04_mirror.cpp'], 'extra_flags': ['-DVF_C13=1'], 'quick_n': 60000, 'thorough_n': 1500000, 'maxlen': 500, 'min_nontrivial': 3000, 'budget': 120,
+         'class_floors': {'case_with_reorder': 5000, 'case_with_armed_index_replay_compared': 3000}},
+    ],
+}
+
 
 def setup():
     t0 = time.time()
